@@ -49,6 +49,9 @@ def dispatch(prop, tier):
     if prop == "C14":
         from . import sel_check
         return sel_check.check(prop, tier)
+    if prop == "X01":
+        from . import extras_check
+        return extras_check.check(prop, tier)
     raise MachineryError("no check for %s" % prop)
 
 
@@ -66,6 +69,9 @@ def main(argv):
             if mod == "StatefulAuto":
                 from . import sa_check
                 return sa_check.replay(argv[1])
+            if mod == "LoopTimer":
+                from . import extras_check
+                return extras_check.replay(argv[1])
             if mod == "Crc7":
                 from . import crc_check
                 return crc_check.replay(argv[1])
